@@ -1,5 +1,4 @@
-"""xtuml/persist.py -> lean/Gen/Persist.lean  (C01)
-
+"""xtuml/persist.py -> lean/Gen/Persist.lean:
 Read with `ast` only:
   * serialize_value: the `null_value` dict (type -> literal), the `transfer_fn` dict
     (type -> lambda v: FORMAT % ARG), whether the type name is upper-cased first, whether an unset
